@@ -80,6 +80,15 @@ def gen_cases(tier, rng):
         ops = [int(x) for x in rng.integers(0, len(comps), size=int(rng.integers(1, 7)))]
         cases.append({"cls": "inplace", "fkind": fk, "comps": comps, "ops": ops, "self_add_at": int(rng.integers(0, len(ops) + 1)),
                       "Nt": 300, "dt": 1.0, "cost": 2})
+    # sums and their copies are separate objects: what is added to one of them later never shows in the other
+    for i in range(40 if tier == "quick" else 300):
+        kinds = ["OverdampedBrownian", "OverdampedBrownian-HighTemperature", "UnderdampedBrownian"]
+        T = r3(rng.choice([77.0, 150.0, 300.0]))
+        comps = [gen_component(rng, kinds, T) for _ in range(int(rng.integers(3, 6)))]
+        if i % 2 == 0:
+            comps[1] = gen_component(rng, ["UnderdampedBrownian"], T)
+        cases.append({"cls": "copies", "fkind": "CorrelationFunction", "comps": comps, "nsum": int(rng.integers(1, 3)),
+                      "who": ["copy", "original", "both"][i % 3], "Nt": 300, "dt": 1.0, "cost": 2})
     nt = 40 if tier == "quick" else 300
     for i in range(nt):
         T1, T2 = r3(rng.uniform(50, 400)), r3(rng.uniform(50, 400))
@@ -248,6 +257,48 @@ def run_case(case, ctx):
         ctx.nontrivial(len(case["ops"]) >= 2)
         return
 
+    if cls == "copies":
+        fk = case["fkind"]
+        with ctx.lib("component construction"):
+            objs = [construct(qr, fk, t, c) for c in case["comps"]]
+        ref = [state_of(o) for o in objs]
+        scale = max(float(numpy.max(numpy.abs(r[0]))) for r in ref)
+        n0 = case["nsum"] + 1
+        with ctx.lib("sum and copy"):
+            ssum = objs[0]
+            for j in range(1, n0):
+                ssum = ssum + objs[j]
+            cp = ssum.copy()
+        exp_s = sum(ref[j][0] for j in range(n0))
+        lam_s = sum(ref[j][1] for j in range(n0))
+        det = {"fkind": fk, "types": [c["ftype"] for c in case["comps"]], "summed": n0, "who": case["who"]}
+        tol = 8 * EPS * (len(objs) + 2) * scale * 2
+        ctx.check("sum-data", float(numpy.max(numpy.abs(numpy.asarray(cp.data) - exp_s))), tol, dict(det, what="copy of a sum"))
+        ctx.check("sum-lamb", abs(float(cp.lamb) - lam_s), 8 * EPS * (n0 + 1) * abs(lam_s), dict(det, what="copy of a sum"))
+        ctx.require("sum-params", len(cp.params) == n0, dict(det, nparams=len(cp.params), want=n0))
+        exp_c, exp_o = exp_s.copy(), exp_s.copy()
+        lam_c, lam_o = lam_s, lam_s
+        rest = list(range(n0, len(objs)))
+        with ctx.lib("in-place additions after copying"):
+            for k, j in enumerate(rest):
+                tgt = case["who"] if case["who"] != "both" else ("copy" if k % 2 == 0 else "original")
+                if tgt == "copy":
+                    cp += objs[j]
+                    exp_c = exp_c + ref[j][0]
+                    lam_c += ref[j][1]
+                else:
+                    ssum += objs[j]
+                    exp_o = exp_o + ref[j][0]
+                    lam_o += ref[j][1]
+                for name, f, e, l in (("copy", cp, exp_c, lam_c), ("original", ssum, exp_o, lam_o)):
+                    ctx.check("sum-data", float(numpy.max(numpy.abs(numpy.asarray(f.data) - e))), tol, dict(det, what=name + " after an in-place addition to the " + tgt, step=k))
+                    ctx.check("sum-lamb", abs(float(f.lamb) - l), 8 * EPS * (len(objs) + 1) * abs(l), dict(det, what=name + " after an in-place addition to the " + tgt, step=k))
+        for i2, o in enumerate(objs):
+            unchanged(ctx, o, ref[i2], dict(det, operand=i2))
+        ctx.key(("copies", tuple(c["ftype"] for c in case["comps"]), n0, case["who"]))
+        ctx.nontrivial(len(rest) >= 1)
+        return
+
     if cls == "temperature":
         a = construct(qr, "CorrelationFunction", t, case["a"])
         b = construct(qr, "CorrelationFunction", t, case["b"])
@@ -296,14 +347,20 @@ def run_case(case, ctx):
             g = cf.get_reorganization_energy()
         ctx.check("measured==declared", abs(g - c["reorg"]), 1e-7 * c["reorg"], {"what": "get_reorganization_energy in 1/cm", "got": g})
         with ctx.lib("Even/OddFTCorrelationFunction"):
-            e = numpy.asarray(cf.get_EvenFTCorrelationFunction().data)
-            o = numpy.asarray(cf.get_OddFTCorrelationFunction().data)
+            ef = cf.get_EvenFTCorrelationFunction()
+            of = cf.get_OddFTCorrelationFunction()
+            e, o = numpy.asarray(ef.data), numpy.asarray(of.data)
             sd = construct(qr, "SpectralDensity", t, dict(c, ftype="OverdampedBrownian"))
             s = numpy.asarray(sd.data)
-        for name, arr, sign in (("even", e, 1.0), ("odd", o, -1.0), ("spectral-density", s, -1.0)):
+            axes = [numpy.asarray(ef.axis.data, dtype=float), numpy.asarray(of.axis.data, dtype=float), numpy.asarray(sd.axis.data, dtype=float)]
+        for (name, arr, sign), wax in zip((("even", e, 1.0), ("odd", o, -1.0), ("spectral-density", s, -1.0)), axes):
             sc = float(numpy.max(numpy.abs(arr)))
             res = float(numpy.max(numpy.abs(arr[1:] - sign * arr[1:][::-1])))
-            ctx.check("even-odd-parity", res, 1e-9 * sc + 1e-300, {"part": name, "scale": sc})
+            # the grid itself is symmetric only to rounding (w_k = -w_{N-k} up to eps N |w|max): a function sampled on it inherits
+            # slope x asymmetry (finite-difference slope of the data, which underestimates unresolved peaks, hence also 1e-7 of the scale)
+            asym = float(numpy.max(numpy.abs(wax[1:] + wax[1:][::-1])))
+            slope = float(numpy.max(numpy.abs(numpy.diff(arr) / numpy.diff(wax))))
+            ctx.check("even-odd-parity", res, 16 * slope * asym + 1e-7 * sc + 1e-300, {"part": name, "scale": sc, "axis_asymmetry": asym, "max_slope": slope})
             ctx.require("even-odd-parity", sc > 0, {"part": name, "why": "identically zero"})
         with ctx.lib("SpectralDensity.measure_reorganization_energy"):
             ms = sd.measure_reorganization_energy()
